@@ -170,6 +170,17 @@ def _setup(ctx):
     classes = {}
     for name, cid in CLASS_IDS.items():
         classes[cid] = getattr(W, name, None) or getattr(I, name)
+    # An application's own workbook over the native-bytes unpacker (no class of the library uses Struct): it sets the unpacker up
+    # and INHERITS Workbook.close().  It manages its file exactly as the library's COBOL text / EBCDIC workbooks do (opened by the
+    # constructor, or the caller's file object taken over; released by close), so it is run as class 8's twin.
+    from stingray.schema_instance import Struct
+
+    class NativeBytesFile(W.Workbook):
+        def __init__(self, name, file_object=None, **kwargs):
+            super().__init__(name, lrecl=5)
+            self.unpacker = Struct()
+            self.unpacker.open(self.name, file_object)
+    classes["struct"] = NativeBytesFile
     # files for the global registry: content chosen by the end of the name only
     reg = root / "reg"
     reg.mkdir()
@@ -332,6 +343,11 @@ def inputs(ctx):
             for body in ([], [1, 2, 3], [1, 2, 3, 5], [1, 2, 4], [1, 2, 3, 6], [1, 2] + [3] * n + [4, 5], [1, 2, 3, 3, 6, 6, 5]):
                 for mode in (0, 1):
                     yield "other_names", {"kind": 1, "cls": cid, "mode": mode, "body": body, "alt": alt}
+    # an application-made workbook over the Struct unpacker that inherits Workbook.close(): the whole grid of class 8
+    ctx.exhaustive.append("lifecycle_grid_of_a_Struct_backed_workbook_inheriting_close")
+    for inp in _grid():
+        if inp["cls"] == 8:
+            yield "struct_workbook", dict(inp, variant="struct")
     count = 100 if ctx.tier == "quick" else 4000
     for _ in range(count):
         cid = rng.randint(1, 8)
@@ -418,7 +434,7 @@ def _do(st, code, cid, wb, env):
 def _lifecycle(st, inp):
     cid, mode, body = inp["cls"], inp["mode"], list(inp["body"])
     path = st["alts"][cid][inp["alt"]] if inp.get("alt") else st["paths"][cid]
-    cls = st["classes"][cid]
+    cls = st["classes"]["struct"] if inp.get("variant") == "struct" else st["classes"][cid]
     p = str(path)
     fobj = None
     was = gc.isenabled()          # every case ends with gc.collect(), so the baseline is clean here
@@ -641,7 +657,8 @@ def observe(ctx, inp):
 
 def describe(inp):
     if inp["kind"] == 1:
-        return ((f"file named {ALT_NAMES[inp['alt'] - 1]!r}: " if inp.get("alt") else "")
+        return (("application workbook over Struct() inheriting Workbook.close(), run as the twin of: " if inp.get("variant") else "")
+                + (f"file named {ALT_NAMES[inp['alt'] - 1]!r}: " if inp.get("alt") else "")
                 + f"with {ID_NAMES.get(inp['cls'], inp['cls'])}({'path, file_object' if inp['mode'] else 'path'}) as wb: "
                 + "; ".join(CODE_NAMES.get(c, str(c)) for c in inp["body"]))
     if inp["kind"] in (2, 4):
